@@ -121,6 +121,7 @@ def particle_swarm(
     best_solution = positions[best_idx][:]
     best_obj = fitness[best_idx]
 
+    iteration = 0
     for iteration in range(1, max_iter + 1):
         # Compute current inertia (with optional decay)
         if inertia_decay is not None:
